@@ -1007,6 +1007,198 @@ Proof.
   destruct (0 <=? fni)%Z; reflexivity.
 Qed.
 
+(* ------------------------------------------------------------------ *)
+(* B4: a chunk resolved through a row of the inner map                 *)
+(* ------------------------------------------------------------------ *)
+(* the string the inner map announced for its source index k *)
+Definition inner_file (st : bstate) (k : N) : text :=
+  fst (match lm_get (b_in_src_val st) k with Some v => v | None => ([], None) end).
+Definition inner_content (st : bstate) (k : N) : option text :=
+  snd (match lm_get (b_in_src_val st) k with Some v => v | None => ([], None) end).
+
+Lemma resolve_found st mp igc isrc iline icol iname ich :
+  find_inner st (m_oline mp) (m_ocol mp) = Some ((igc, isrc, iline, icol, iname), ich) ->
+  (0 <= isrc)%Z -> resolve st mp = Some (igc, isrc, iline, icol, iname, ich).
+Proof.
+  intros H H0. unfold resolve. rewrite H. apply Z.leb_le in H0. rewrite H0. reflexivity.
+Qed.
+
+(* the column is the row's column, or that column advanced by the offset into the row *)
+Lemma adv_col_spec st mp igc isrc iline icol iname ich :
+  (adv_col st mp igc isrc iline icol iname ich = (icol, iname)) \/
+  ((0 < m_ocol mp - igc)%Z /\
+   adv_col st mp igc isrc iline icol iname ich = ((icol + (m_ocol mp - igc))%Z, (-1)%Z)).
+Proof.
+  unfold adv_col. destruct (0 <? m_ocol mp - igc)%Z eqn:E; [|left; reflexivity].
+  apply Z.ltb_lt in E.
+  destruct (content_lines st isrc) as [ls|]; [|left; reflexivity].
+  destruct (line_of ls iline) as [l|]; [|left; reflexivity].
+  match goal with |- context [if ?b then _ else _] => destruct b end;
+    [right; split; [exact E|reflexivity]|left; reflexivity].
+Qed.
+
+Lemma adv_col_bounds st mp igc isrc iline icol iname ich : (igc <= m_ocol mp)%Z ->
+  (icol <= fst (adv_col st mp igc isrc iline icol iname ich) <= icol + (m_ocol mp - igc))%Z.
+Proof.
+  intros H. destruct (adv_col_spec st mp igc isrc iline icol iname ich) as [E|[E1 E]]; rewrite E; cbn [fst]; lia.
+Qed.
+
+(* frame of the source and name steps of a resolved chunk *)
+Definition src_frame (st st' : bstate) : Prop :=
+  b_names st' = b_names st /\ b_src_idx st' = b_src_idx st /\ b_name_idx st' = b_name_idx st /\
+  b_name_val st' = b_name_val st /\ b_inner_index st' = b_inner_index st /\
+  b_inner_source st' = b_inner_source st /\ b_lines st' = b_lines st /\
+  b_in_src_val st' = b_in_src_val st /\ b_in_contents st' = b_in_contents st /\
+  b_in_name_idx st' = b_in_name_idx st /\ b_in_name_val st' = b_in_name_val st.
+
+Definition is_src_ann (e : event) : Prop := match e with ESource _ _ _ => True | _ => False end.
+
+Lemma inner_src_frame st isrc :
+  src_frame st (fst (fst (inner_src st isrc))) /\ Forall is_src_ann (snd (inner_src st isrc)).
+Proof.
+  unfold inner_src.
+  destruct (match lm_get (b_in_src_idx st) (Z.to_N isrc) with Some v => v | None => (-2)%Z end =? -2)%Z;
+    [|split; [repeat split|constructor]].
+  destruct (match lm_get (b_in_src_val st) (Z.to_N isrc) with Some v => v | None => ([], None) end)
+    as [source content].
+  unfold intern. destruct (find_text (b_sources st) source 0); cbn [fst snd];
+    (split; [repeat split|repeat constructor]).
+Qed.
+
+(* first use of the inner source index: it is interned under the announced string *)
+Lemma inner_src_first st isrc :
+  lm_get (b_in_src_idx st) (Z.to_N isrc) = Some (-2)%Z ->
+  exists g, snd (fst (inner_src st isrc)) = Z.of_N g /\
+    nth_opt (b_sources (fst (fst (inner_src st isrc)))) g = Some (inner_file st (Z.to_N isrc)) /\
+    lm_get (b_in_src_idx (fst (fst (inner_src st isrc)))) (Z.to_N isrc) = Some (Z.of_N g) /\
+    snd (inner_src st isrc) =
+      (if find_text (b_sources st) (inner_file st (Z.to_N isrc)) 0 then []
+       else [ESource g (inner_file st (Z.to_N isrc)) (inner_content st (Z.to_N isrc))]).
+Proof.
+  intros H. unfold inner_src, inner_file, inner_content. rewrite H, Z.eqb_refl.
+  destruct (match lm_get (b_in_src_val st) (Z.to_N isrc) with Some v => v | None => ([], None) end)
+    as [source content]. cbn [fst snd].
+  unfold intern. destruct (find_text (b_sources st) source 0) as [g|] eqn:E; bsimp.
+  - apply find_text_sound0 in E. destruct E as [E1 _]. exists g.
+    split; [reflexivity|]. split; [exact E1|]. split; [apply lm_get_insert_same|reflexivity].
+  - exists (len (b_sources st)). split; [reflexivity|]. split; [apply nth_opt_app_last|].
+    split; [apply lm_get_insert_same|reflexivity].
+Qed.
+
+(* later uses: the recorded global index *)
+Lemma inner_src_later st isrc g :
+  lm_get (b_in_src_idx st) (Z.to_N isrc) = Some (Z.of_N g) ->
+  inner_src st isrc = (st, Z.of_N g, []).
+Proof.
+  intros H. unfold inner_src. rewrite H.
+  assert (E : (Z.of_N g =? -2)%Z = false) by (apply Z.eqb_neq; lia). rewrite E. reflexivity.
+Qed.
+
+Definition nm_frame (st st' : bstate) : Prop :=
+  b_sources st' = b_sources st /\ b_src_idx st' = b_src_idx st /\ b_inner_index st' = b_inner_index st /\
+  b_inner_source st' = b_inner_source st /\ b_lines st' = b_lines st /\
+  b_in_src_idx st' = b_in_src_idx st /\ b_in_src_val st' = b_in_src_val st /\
+  b_in_contents st' = b_in_contents st /\ b_in_name_val st' = b_in_name_val st /\
+  b_name_val st' = b_name_val st.
+
+Lemma name_frame_nm st st' : name_frame st st' -> nm_frame st st'.
+Proof. intros (A1 & A2 & A3 & A4 & A5 & A6 & A7 & A8 & A9 & A10 & A11). repeat split; assumption. Qed.
+
+Lemma inner_nm_frame st1 mp isrc iline icol1 iname1 :
+  nm_frame st1 (fst (fst (inner_nm st1 mp isrc iline icol1 iname1))) /\
+  Forall is_name_ann (snd (inner_nm st1 mp isrc iline icol1 iname1)).
+Proof.
+  unfold inner_nm. destruct (0 <=? iname1)%Z.
+  - destruct (match lm_get (b_in_name_idx st1) (Z.to_N iname1) with Some v => v | None => (-2)%Z end =? -2)%Z;
+      [|split; [repeat split|constructor]].
+    destruct (lm_get (b_in_name_val st1) (Z.to_N iname1)) as [nm|]; [|split; [repeat split|constructor]].
+    unfold intern. destruct (find_text (b_names st1) nm 0); cbn [fst snd];
+      (split; [repeat split|repeat constructor]).
+  - destruct (0 <=? m_name mp)%Z; [|split; [repeat split|constructor]].
+    destruct (content_lines st1 isrc) as [ls|]; [|split; [repeat split|constructor]].
+    destruct (lm_get (b_name_val st1) (Z.to_N (m_name mp))) as [nm|]; [|split; [repeat split|constructor]].
+    match goal with |- context [if ?b then _ else _] => destruct b end; [|split; [repeat split|constructor]].
+    split; [apply name_frame_nm; apply outer_name_frame|apply outer_name_events].
+Qed.
+
+Definition is_ann (e : event) : Prop := match e with EChunk _ _ => False | _ => True end.
+
+Section Resolved.
+Variables (name : text) (remove : bool) (st : bstate) (t : option text) (mp : mapping).
+Variables (igc isrc iline icol iname : Z) (ich : text).
+Hypothesis Hsrc : m_src mp = b_inner_index st.
+Hypothesis Hfind : find_inner st (m_oline mp) (m_ocol mp) = Some ((igc, isrc, iline, icol, iname), ich).
+Hypothesis Hisrc : (0 <= isrc)%Z.
+
+Lemma resolved_eq :
+  outer_chunk name remove st t mp = resolved_chunk st t mp (igc, isrc, iline, icol, iname, ich).
+Proof.
+  rewrite outer_chunk_eq, Hsrc, Z.eqb_refl, (resolve_found st mp _ _ _ _ _ _ Hfind Hisrc). reflexivity.
+Qed.
+
+(* the row found starts at or before the wanted column (no sortedness needed) *)
+Lemma resolved_row_le : (igc <= m_ocol mp)%Z /\ (1 <= m_oline mp)%Z.
+Proof. destruct (find_inner_le st _ _ _ _ Hfind) as [A B]. cbn [row_col] in B. split; assumption. Qed.
+
+(* B4: one chunk, of the inner row's line, a column between the row's column and that column
+   advanced by the offset into the row; announcements only before it; the source index is the
+   global index of the string the inner map announced for the row's source *)
+Theorem resolved_attr :
+  exists st' pre si c fni,
+    outer_chunk name remove st t mp = (st', pre ++ [mk_chunk t mp si iline c fni]) /\
+    (icol <= c <= icol + (m_ocol mp - igc))%Z /\
+    Forall is_ann pre /\
+    b_lines st' = b_lines st /\ b_inner_index st' = b_inner_index st /\
+    b_in_src_val st' = b_in_src_val st /\
+    (lm_get (b_in_src_idx st) (Z.to_N isrc) = Some (-2)%Z ->
+       exists g, si = Z.of_N g /\ nth_opt (b_sources st') g = Some (inner_file st (Z.to_N isrc)) /\
+                 lm_get (b_in_src_idx st') (Z.to_N isrc) = Some (Z.of_N g)) /\
+    (forall g, lm_get (b_in_src_idx st) (Z.to_N isrc) = Some (Z.of_N g) ->
+       si = Z.of_N g /\ b_sources st' = b_sources st /\ b_in_src_idx st' = b_in_src_idx st).
+Proof.
+  rewrite resolved_eq. unfold resolved_chunk.
+  destruct resolved_row_le as [Hle _].
+  pose proof (adv_col_bounds st mp igc isrc iline icol iname ich Hle) as Hb.
+  destruct (adv_col st mp igc isrc iline icol iname ich) as [icol1 iname1]. cbn [fst] in Hb.
+  pose proof (inner_src_frame st isrc) as [F1 G1].
+  pose proof (inner_src_first st isrc) as First. pose proof (inner_src_later st isrc) as Later.
+  destruct (inner_src st isrc) as [[st1 si] evs]. cbn [fst snd] in F1, G1, First, Later.
+  pose proof (inner_nm_frame st1 mp isrc iline icol1 iname1) as [F2 G2].
+  destruct (inner_nm st1 mp isrc iline icol1 iname1) as [[st2 fni] evn]. cbn [fst snd] in F2, G2.
+  exists st2, (evs ++ evn), si, icol1, fni. rewrite <- app_assoc. split; [reflexivity|].
+  split; [exact Hb|].
+  destruct F1 as (A1 & A2 & A3 & A4 & A5 & A6 & A7 & A8 & A9 & A10 & A11).
+  destruct F2 as (B1 & B2 & B3 & B4 & B5 & B6 & B7 & B8 & B9 & B10).
+  split.
+  { apply Forall_app. split; (eapply Forall_impl; [|eassumption]); intros [? ?|? ? ?|? ?]; cbn; tauto. }
+  split; [congruence|]. split; [congruence|]. split; [congruence|]. split.
+  - intros H. destruct (First H) as [g (C1 & C2 & C3 & _)]. exists g. rewrite B1, B6. repeat split; assumption.
+  - intros g H. specialize (Later g H). inversion Later. subst st1 si evs. rewrite B1, B6. repeat split.
+Qed.
+
+End Resolved.
+
+(* reading the emitted chunk: indices, lines and columns inside u32 are not wrapped *)
+Lemma wrap32z_in_range z : (0 <= z < 4294967296)%Z -> wrap32z z = Z.to_N z.
+Proof. intros H. unfold wrap32z. rewrite Z.mod_small by lia. reflexivity. Qed.
+
+Lemma rsegs_resolved_chunk t mp si line c fni S Nn rest :
+  (0 <= si < 4294967296)%Z -> (0 <= line < 4294967296)%Z -> (0 <= c < 4294967296)%Z ->
+  rsegs_of_events (mk_chunk t mp si line c fni :: rest) S Nn =
+  (t, (g_line mp, g_col mp,
+       Some (mkLoc (match nth_opt S (Z.to_N si) with Some s => s | None => BAD end)
+                   (Z.to_N line) (Z.to_N c)
+                   (if (0 <=? fni)%Z
+                    then Some (match nth_opt Nn (wrap32z fni) with Some x => x | None => BAD end)
+                    else None)))) :: rsegs_of_events rest S Nn.
+Proof.
+  intros Hs Hl Hc. unfold mk_chunk.
+  assert (H0 : (0 <=? si)%Z = true) by (apply Z.leb_le; lia).
+  rewrite H0, !wrap32z_in_range by assumption.
+  cbn [rsegs_of_events g_line g_col m_orig o_src o_line o_col o_name].
+  destruct (0 <=? fni)%Z; reflexivity.
+Qed.
+
 Print Assumptions sm_stream_shape.
 Print Assumptions combined_pass_rsegs.
 Print Assumptions combined_pass_attr.
@@ -1021,3 +1213,6 @@ Print Assumptions fallback_later.
 Print Assumptions fallback_later_spec.
 Print Assumptions announce_inner_no_content_state.
 Print Assumptions rsegs_fallback_chunk.
+Print Assumptions resolved_eq.
+Print Assumptions resolved_attr.
+Print Assumptions rsegs_resolved_chunk.
